@@ -1,10 +1,10 @@
 chk("C03", "proof",
     "Coq theorems (coq/Properties/C03.v) relate the transcription of ISD style resolution (animation, specified, direction, inheritance, "
-    "initial values, ordered computation of the 11 length-bearing properties) to an independently organised, by-property specification of "
+    "initial values, ordered computation of the 12 length-bearing properties) to an independently organised, by-property specification of "
     "TTML2 cascade and length resolution. Proved for every document, time and ancestor chain, for ALL 36 properties "
-    "(C03_all_properties: sget st p = computed_spec d t chain p): the cascade of the 24 plain properties, the computed font size incl. ruby "
+    "(C03_all_properties: sget st p = computed_spec d t chain p): the cascade of the 21 plain properties, the computed font size incl. ruby "
     "halving, tts:textDecoration merging per component, tts:direction with the writing-mode semantics on regions, the region's writing mode, "
-    "tts:extent, tts:origin/tts:position (edges, computed extent), tts:padding (axis by writing mode), tts:lineHeight, tts:linePadding, "
+    "tts:extent, tts:origin/tts:position (edges, computed extent), tts:padding (axis by writing mode), tts:disparity (C03_disparity: resolved like a width after the font size), tts:lineHeight, tts:linePadding, "
     "tts:rubyReserve, tts:textOutline, tts:textShadow, tts:textEmphasis; _compute_length = spec `rel`; and, by rose-tree induction over "
     "_process_element, for every element of every snapshot `isd d t` (C03_snapshot_values: each element other than br/text carries, for "
     "every applicable property, the computed value of its source element along its ancestor chain). Hypotheses: chain shape (chain_ok) "
